@@ -23,13 +23,19 @@ Fixpoint add_cell (k : tkey) (w : Z) (t : list (tkey * Z)) : list (tkey * Z) :=
   | (k', w') :: t' => if tkey_eqb k k' then (k', w' + w) :: t' else (k', w') :: add_cell k w t'
   end.
 
-Record read := { r_dp : Z; r_w : Z; r_key : Z }.
+(* r_reflen: length of the contig of the read's OWN alignment file header (assignReads looks it up in
+   args.ref_lengths, which create_count_table recomputes for every alignment file) *)
+Record read := { r_dp : Z; r_w : Z; r_key : Z; r_reflen : Z }.
 
-Definition add_read (keep : bool) (reflen b s : Z) (t : list (tkey * Z)) (r : read) :=
-  fold_left (fun t p => add_cell (r_key r, fst p, snd p) (r_w r) t) (counted_bins keep reflen (r_dp r) b s) t.
+Definition add_read (keep : bool) (b s : Z) (t : list (tkey * Z)) (r : read) :=
+  fold_left (fun t p => add_cell (r_key r, fst p, snd p) (r_w r) t) (counted_bins keep (r_reflen r) (r_dp r) b s) t.
 
-Definition table (keep : bool) (reflen b s : Z) (reads : list read) : list (tkey * Z) :=
-  fold_left (add_read keep reflen b s) reads [].
+Definition table (keep : bool) (b s : Z) (reads : list read) : list (tkey * Z) :=
+  fold_left (add_read keep b s) reads [].
+
+(* a history of calls in one process: every call starts from an empty table *)
+Definition history (calls : list (bool * Z * Z * list read)) : list (list (tkey * Z)) :=
+  map (fun c => let '(keep, b, s, reads) := c in table keep b s reads) calls.
 
 Definition total (t : list (tkey * Z)) : Z := fold_right (fun c acc => snd c + acc) 0 t.
 Definition cell (k : tkey) (t : list (tkey * Z)) : Z :=
@@ -39,7 +45,7 @@ Definition pre (b s : Z) : bool := (0 <? s) && (s <=? b).
 
 (* ---- I/O glue *)
 Definition dec_read (v : Val) : read :=
-  {| r_dp := getZ (nthV 0 v); r_w := getZ (nthV 1 v); r_key := getZ (nthV 2 v) |}.
+  {| r_dp := getZ (nthV 0 v); r_w := getZ (nthV 1 v); r_key := getZ (nthV 2 v); r_reflen := getZ (nthV 3 v) |}.
 
 Definition run_C10 (mode : Z) (v : Val) : Val :=
   match mode with
@@ -47,10 +53,10 @@ Definition run_C10 (mode : Z) (v : Val) : Val :=
          let dp := getZ (nthV 1 v) in let b := getZ (nthV 2 v) in let s := getZ (nthV 3 v) in
          VL (map ofPair (if w =? 0 then bins_u dp b s else bins_t dp b s))
   | 1 => ofB (pre (getZ (nthV 2 v)) (getZ (nthV 3 v)))
-  | 2 => let keep := getB (nthV 0 v) in let reflen := getZ (nthV 1 v) in
-         let b := getZ (nthV 2 v) in let s := getZ (nthV 3 v) in
-         let reads := map dec_read (getL (nthV 4 v)) in
+  | 2 => let keep := getB (nthV 0 v) in
+         let b := getZ (nthV 1 v) in let s := getZ (nthV 2 v) in
+         let reads := map dec_read (getL (nthV 3 v)) in
          VL (map (fun c => let '((k, lo, hi), w) := c in VL [VZ k; VZ lo; VZ hi; VZ w])
-                 (table keep reflen b s reads))
+                 (table keep b s reads))
   | _ => bad
   end.
